@@ -296,6 +296,17 @@ def _restores_saved_text(ctx, pl: Pipeline, st_w: Stage, w: RowStore, st_r: Stag
     if not pidx or pidx[0] >= len(params):
         return False
     pname = params[pidx[0]]
+    # `for idx, saved in P.items(): row[col] = saved`   or   `for idx in P: row[col] = P[idx]`
+    if isinstance(r.value, ast.Subscript) and isinstance(r.value.value, ast.Name) and r.value.value.id == pname and isinstance(r.value.slice, ast.Name):
+        key = r.value.slice.id
+        for n in own_nodes(fr.node):
+            if isinstance(n, ast.For) and isinstance(n.target, ast.Name) and n.target.id == key:
+                it = n.iter
+                if isinstance(it, ast.Call) and isinstance(it.func, ast.Attribute) and it.func.attr == "keys":
+                    it = it.func.value
+                if isinstance(it, ast.Name) and it.id == pname and any(x is r.node for x in ast.walk(n)):
+                    return True
+        return False
     if not isinstance(r.value, ast.Name):
         return False
     for n in own_nodes(fr.node):
